@@ -227,8 +227,8 @@ func init() {
 			compareAll("default-config-changes-verdict", "loading the example configuration", defCfg, nil, string(def))
 		}
 		// unrelated-only documents
-		for _, text := range []string{"", "[nosuchlint]\nA = 1\n", "[Global]\nSomething = 1\n", "[e_unknown_lint_name]\nSkip = true\n[w_other]\nx = [1,2]\n",
-			"title = \"zlint\"\n[CABFBaselineRequirementsConfig]\n[RFC5280Config]\nFoo = \"bar\"\n"} {
+		for _, text := range append([]string{"", "[nosuchlint]\nA = 1\n", "[Global]\nSomething = 1\n", "[e_unknown_lint_name]\nSkip = true\n[w_other]\nx = [1,2]\n",
+			"title = \"zlint\"\n[CABFBaselineRequirementsConfig]\n[RFC5280Config]\nFoo = \"bar\"\n"}, tomlSyntaxZoo()...) {
 			cfg, e := lint.NewConfigFromString(text)
 			if e != nil {
 				continue
